@@ -60,6 +60,8 @@ def tx_no_mutation(ctx, rule):
 
 
 def check(ctx):
+    from .c35 import txqueue_rearranged_only_by_service
+    txqueue_rearranged_only_by_service(ctx, ("Stack", "RemoteStack", "TcpServerStack", "ClientStreamStack", "TcpClientStack"), "T4-txqueue")
     ctx.rule("T4-txcopy", "tcp tx/serviceTxes/send never mutate handed-over bytes in place; a partial send re-queues a copy of the tail")
     tx_no_mutation(ctx, "T4-txcopy")
     ctx.rule("D-scope", "D1/D3/D4/D5/D6 over scope(TcpServerStack.serviceAll, TcpClientStack.serviceAll)")
